@@ -82,8 +82,26 @@ func c17sqrt(c *mon.Ctx, v *big.Int, cls string) {
 	if x != keep {
 		c.Fail("input-modified/SqrtPrecomp", "SqrtPrecomp modified its argument", map[string]string{"v": v.Text(16)})
 	}
+	// the returned element belongs to the caller: scribbling on it must not influence later calls
+	if res != nil {
+		res.SetUint64(0xBAD0BAD0)
+	}
+	c17calls++
+	if c17calls%32 == 0 {
+		var zero fp.Element
+		z0 := fp.SqrtPrecomp(&zero)
+		if z0 == nil || !z0.IsZero() {
+			c.Fail("sqrt-zero-after-history", "SqrtPrecomp(0) is not 0 after earlier results were modified by the caller (returned value aliases internal state)", nil)
+		}
+		if z0 != nil {
+			z0.SetUint64(0xBAD0BAD1)
+		}
+		c.Count("sqrt_zero_rechecks", 1)
+	}
 	c.Eval("sqrt|"+cls+"|"+kind, v.Cmp(bigOne) > 0)
 }
+
+var c17calls int
 
 func c17point(c *mon.Ctx, xv *big.Int, cls string) {
 	x := FpFromBig(xv)
@@ -124,6 +142,9 @@ func c17point(c *mon.Ctx, xv *big.Int, cls string) {
 			c.Fail("point-off-curve", "recovered point is not on the curve", nil)
 		}
 		c.Count("points_recovered", 1)
+		// scribble on the returned point: it must be the caller's own copy
+		pt.X.SetUint64(1)
+		pt.Y.SetUint64(2)
 	}
 	kind := "oncurve"
 	if !ok {
